@@ -210,7 +210,113 @@ theorem tieA_fixed_select_join_partial {σ} (g : Rng σ) (ops : Gen.PlanSelectFn
             | none => rfl
             | some f1 => rfl
 
+
+/-- 9 mask bytes, each an octet: what `ChannelMask<9>` guarantees -/
+def MaskWF (p : Gen.PlanSelectFn.FixedChannelPlan) : Prop := p.channel_mask._0.length = 9 ∧ Octets p.channel_mask._0
+
+/-- **a data frame of a fixed plan while the join bias is in force** (`has_bias_and_not_exhausted`): unless the mask
+disables the channel the walk yields, the regenerated `select_tx_channel` is the model's — that channel, with the
+data rate the channel mandates (DR0 / `JOIN_DR_500KHZ`), mask untouched, join-channel state as the walk leaves it.
+(The case "the mask disables the biased channel" continues as without a bias; see `…_full` below.) -/
+theorem tieA_fixed_select_data_biased_partial {σ} (g : Rng σ) (ops : Gen.PlanSelectFn.JcOps σ) (hops : JcOk g ops)
+    (rs : RegionState) (p : Gen.PlanSelectFn.FixedChannelPlan) (hplan : rs.plan = .fix (fixOf p))
+    (hj : JcWF p.join_channels) (hm : MaskWF p) (dr : DR) (s : σ)
+    (hb : (jcOf p.join_channels).hasBiasAndNotExhausted = true)
+    (hen : ∀ ch jc' s1, (jcOf p.join_channels).getNextChannel g s = .ok (ch, jc', s1) →
+      Mask.isEnabled (natsOf p.channel_mask._0) ch ≠ .ok false) :
+    (@Gen.PlanSelectFn.FixedChannelPlan.select_tx_channel σ (rngOf g) (fuelOf loopFuel) (fregOf rs.id) ops p s dr .Data).map
+        (fun o => (txOf o.1, { rs with plan := .fix (fixOf o.2.1) }, o.2.2))
+      = (selectTxChannel g rs dr .data s).toOption := by
+  obtain ⟨hg1, hg2⟩ := hops p.join_channels s hj
+  obtain ⟨hml, hoct⟩ := hm
+  have hb' := tieA_has_bias_and_not_exhausted p.join_channels hj
+  rw [hb] at hb'
+  unfold Gen.PlanSelectFn.FixedChannelPlan.select_tx_channel selectTxChannel
+  simp only [hplan, Option.bind_eq_bind, Option.pure_def, fixOf, hb, hb', if_true]
+  cases hgn : ops.get_next_channel p.join_channels s with
+  | none =>
+    rw [hgn] at hg1
+    cases hmd : (jcOf p.join_channels).getNextChannel g s with
+    | ok v => rw [hmd] at hg1; simp [Except.toOption] at hg1
+    | error e => rfl
+  | some o =>
+    obtain ⟨c, j', s1⟩ := o
+    obtain ⟨hc0, hc1, hj'⟩ := hg2 _ hgn
+    rw [hgn] at hg1
+    cases hmd : (jcOf p.join_channels).getNextChannel g s with
+    | error e => rw [hmd] at hg1; simp [Except.toOption] at hg1
+    | ok v =>
+      rw [hmd] at hg1
+      simp only [Except.toOption, Option.map_some, Option.some.injEq] at hg1
+      subst hg1
+      simp only at hc0 hc1
+      have hne := hen _ _ _ hmd
+      have hcn : c = ((c.toNat : Nat) : Int) := by omega
+      have hie := is_enabled_nat9 p.channel_mask hoct hml c.toNat
+      rw [← hcn] at hie
+      simp only [Option.bind_some, bind, Except.bind, pure, Except.pure, bind_bind_id, hie]
+      cases hme : Mask.isEnabled (natsOf p.channel_mask._0) c.toNat with
+      | error e => rfl
+      | ok b =>
+        cases b with
+        | false => exact absurd hme hne
+        | true =>
+          simp only [Except.toOption, Option.bind_some, if_true]
+          have hdr : (if decide (c < 64) = true then DR._0 else (fregOf rs.id).JOIN_DR_500KHZ)
+              = (if c.toNat < 64 then DR._0 else join500kDr rs.id) := by
+            by_cases h : c < 64
+            · have h' : c.toNat < 64 := by omega
+              simp [h, h']
+            · have h' : ¬ c.toNat < 64 := by omega
+              simp [h, h', fregOf]
+          simp only [Option.bind_some, ite_ge_swap, hdr, bind, Except.bind, pure, Except.pure]
+          generalize (if c.toNat < 64 then DR._0 else join500kDr rs.id) = drc
+          rw [show (fregOf rs.id).datarates = datarates rs.id from rfl, show (fregOf rs.id).uplink_channels = uplinkChannels rs.id from rfl,
+            show (fregOf rs.id).downlink_channels = downlinkChannels rs.id from rfl,
+            idx_datarates, rem8_u8 c hc0 hc1]
+          have hcn : c = ((c.toNat : Nat) : Int) := by omega
+          rw [hcn, idx_nat]
+          simp only [Int.toNat_natCast, Option.bind_some, idx_nat]
+          have hi := indexDatarate_opt rs.id drc.toInt.toNat
+          cases hidx : indexDatarate rs.id drc.toInt.toNat with
+          | error e =>
+            rw [hidx] at hi
+            simp only [Except.toOption] at hi
+            rw [← hi]; rfl
+          | ok od =>
+            rw [hidx] at hi
+            simp only [Except.toOption] at hi
+            rw [← hi]
+            cases od with
+            | none => rfl
+            | some d =>
+              simp only [Option.bind_some, unwrapDatarate]
+              cases (uplinkChannels rs.id)[c.toNat]? with
+              | none => rfl
+              | some f =>
+                cases (downlinkChannels rs.id)[c.toNat % 8]? with
+                | none => rfl
+                | some f1 => rfl
+
+/- NOT REACHED (full statement, kept visible): the whole data-frame branch and the whole method on a fixed plan,
+
+theorem tieA_fixed_select_tx_channel {σ} (g : Rng σ) (ops : Gen.PlanSelectFn.JcOps σ) (hops : JcOk g ops)
+    (rs : RegionState) (p : Gen.PlanSelectFn.FixedChannelPlan) (hplan : rs.plan = .fix (fixOf p))
+    (hj : JcWF p.join_channels) (hm : MaskWF p) (dr : DR) (frame : Gen.PlanSelectFn.Frame) (s : σ) :
+    (@Gen.PlanSelectFn.FixedChannelPlan.select_tx_channel σ (rngOf g) (fuelOf loopFuel) (fregOf rs.id) ops p s dr frame).map
+        (fun o => (txOf o.1, { rs with plan := .fix (fixOf o.2.1) }, o.2.2))
+      = (selectTxChannel g rs dr (frameOf frame) s).toOption
+
+proved here for `frame = .Join` (`tieA_fixed_select_join_partial`) and for `frame = .Data` while the join bias is in
+force and the mask does not disable the biased channel (`tieA_fixed_select_data_biased_partial`).  Missing: the
+data frame after the bias (`first_data_channel` as a preference — the function itself is tied, `tieA_first_data_channel`
+— and the two bandwidth groups with their "never spin" re-enabling and redraw loops, which the translator already
+emits: `Rt.rangeAnyM 64 72`, `set_bank 8 255`, `Rt.forRangeM 0 8`, two `Rt.loopM`), and `JcOk` itself: the bank walk
+`JoinChannels::get_next_channel` / `AvailableChannels::get_next` with its entropy loop is not translated (it needs
+`match (a, b.cmp(c))`, `for byte in slice { return }` in the translator). -/
+
 #print axioms tieA_has_bias_and_not_exhausted
+#print axioms tieA_fixed_select_data_biased_partial
 #print axioms tieA_clear_join_bias
 #print axioms tieA_first_data_channel
 #print axioms tieA_fixed_select_join_partial
